@@ -19,7 +19,7 @@
 EXTENDS Api, TLC, Json, IOUtils
 
 CONSTANTS NP, NS, NB, MaxDepth,
-          UsePreludes, UseSystematic, WKey, WEnv, WLoad, WDecode, WSig      \* multiplicities of the rarer calls in the call set (bias for the simulator; 1 in exhaustive mode)
+          UsePreludes, UseSystematic, RandomPick, Bug, WKey, WEnv, WLoad, WDecode, WSig      \* multiplicities of the rarer calls in the call set (bias for the simulator; 1 in exhaustive mode)
 
 VARIABLES mSt, mHist, mDepth
 
@@ -196,6 +196,15 @@ SysSchedules ==
   \cup {ctx \o << [op |-> "env.LoadBuf", b |-> ReadSlot(ev), cls |-> c, content |-> Content(c)], ev >> \o Aftermath(ev) :
           ctx \in {<<>>, CtxValid}, ev \in {e \in SysCalls : ReadsBuf(e)}, c \in BufClasses}
 
+(* ---- non-vacuity: deliberately wrong designs that the invariants must reject (bin/check runs the *_bug*.cfg configurations and *)
+(* demands the violation): a failed decode that clears its receiver; caller mutation of an import buffer that moves the key       *)
+StepM(st, ev) ==
+  LET r == Step(st, ev) IN
+  CASE Bug = "decode_clobbers" /\ ev.op \in DecodeOps /\ r.kind = "err" /\ st.pt[ev.v] # Uninit -> [r EXCEPT !.st = SetPt(st, ev.v, Inf)]
+    [] Bug = "key_aliases_buffer" /\ ev.op = "env.MutateBuf" /\ st.priv # Nil /\ Len(ev.content) = W
+         /\ (OS2IP(ev.content) \prec N) /\ ~BigEq(OS2IP(ev.content), 0) -> [r EXCEPT !.st.priv = ev.content]
+    [] OTHER -> r
+
 Init == /\ mDepth = 0
         /\ \E pre \in (IF UseSystematic THEN SysSchedules ELSE IF UsePreludes THEN Preludes ELSE {<<>>}) :
              LET rp == RunPrelude(Init0, <<>>, pre) IN mSt = rp[1] /\ mHist = (IF "VERIF_SKEL_DIR" \in DOMAIN IOEnv THEN rp[2] ELSE <<>>)
@@ -206,10 +215,13 @@ Emit == IF "VERIF_SKEL_DIR" \in DOMAIN IOEnv
              /\ ndJsonSerialize(IOEnv.VERIF_SKEL_DIR \o "/sk-" \o ToString(id) \o ".ndjson", mHist)
         ELSE TRUE
 
+(* In simulation (schedule generation) one call is DRAWN per step instead of enumerating every successor and keeping one: the   *)
+(* behaviours are the same set, generation is ~1000x cheaper.  Exhaustive configurations quantify over the whole call set.      *)
+Pick == IF RandomPick THEN {RandomElement(AllCalls)} ELSE AllCalls
 Next ==
   \/ /\ mDepth < MaxDepth
-     /\ \E ev \in AllCalls :
-          LET cev == Concrete(mSt, ev)  r == Step(mSt, cev) IN
+     /\ \E ev \in Pick :
+          LET cev == Concrete(mSt, ev)  r == StepM(mSt, cev) IN
           /\ mSt' = r.st
           /\ mHist' = IF "VERIF_SKEL_DIR" \in DOMAIN IOEnv THEN Append(mHist, [x \in DOMAIN cev \ {"content", "w"} |-> cev[x]] @@ [kind |-> r.kind]) ELSE <<>>
           /\ mDepth' = mDepth + 1
@@ -218,7 +230,7 @@ Next ==
 
 (* invariants *)
 Valid  == StateOK(mSt) /\ SignOK(mSt)
-Steps  == mDepth < MaxDepth => \A ev \in AllCalls : StepOK(mSt, Concrete(mSt, ev))
+Steps  == mDepth < MaxDepth => \A ev \in AllCalls : LET cev == Concrete(mSt, ev) IN StepOKR(mSt, cev, StepM(mSt, cev))
 View   == <<mSt, mDepth>>
 ASSUME TLCSet(7, 0)
 =============================================================================
